@@ -36,6 +36,7 @@ type Obligation struct {
 	Model   string
 	SMTFile string
 	Inputs  map[string]*Term // entry-state symbols by parameter path (for replay)
+	rp      *replayInfo      // what the replayer needs: parameters, entry state, and (at returns) results and final state
 }
 
 type Flow struct {
@@ -88,6 +89,8 @@ type FCtx struct {
 	curSig   *types.Signature
 	curFI    *FuncInfo
 	curCon   *Contract
+	rpBase   *replayInfo
+	rpCur    *replayInfo
 	rangeCtr map[ast.Node]types.Object
 	lastDryFields map[int]map[int]bool
 	exitApplied   map[int]int
@@ -106,6 +109,11 @@ func (c *FCtx) oblige(st *State, kind, name string, goal *Term, pos string) {
 		full = fmt.Sprintf("%s#%d", full, n)
 	}
 	o := &Obligation{Name: full, Func: c.fi.Key, Kind: kind, Hyps: append([]*Term(nil), st.pc...), Goal: goal, Pos: pos, Variant: c.variant, Inputs: c.inputs}
+	if c.rpCur != nil {
+		o.rp = c.rpCur
+	} else {
+		o.rp = c.rpBase
+	}
 	c.obls = append(c.obls, o)
 }
 
